@@ -179,6 +179,37 @@ def audit(prop_id: str) -> Dict[str, Any]:
             "raw": (out + err)[-4000:] if rc != 0 else ""}
 
 
+def clem_closure(prop_id: str) -> List[str]:
+    """All Clem.* modules that Clem.Props.<id> imports transitively (from the `import` lines)."""
+    seen: List[str] = []
+    todo = [f"Clem.Props.{prop_id}"]
+    while todo:
+        m = todo.pop()
+        if m in seen:
+            continue
+        f = LEAN / (m.replace(".", "/") + ".lean")
+        if not f.exists():
+            continue
+        seen.append(m)
+        for line in f.read_text().splitlines():
+            mm = re.match(r"\s*(?:public\s+)?import\s+(Clem\.[\w.]+)", line)
+            if mm:
+                todo.append(mm.group(1))
+    return sorted(seen)
+
+
+def leanchecker(prop_id: str) -> Dict[str, Any]:
+    """Thorough tier: replay the compiled .olean files of the property's own modules (Props, Proofs,
+    Model, Gen, Py it depends on) through Lean's independent re-checker."""
+    mods = clem_closure(prop_id)
+    t0 = time.time()
+    try:
+        rc, out, err = _run(["lake", "env", "leanchecker"] + mods, cwd=LEAN, timeout=1800)
+    except Exception as e:  # not available / timed out: infrastructure, not a verdict
+        return {"modules": len(mods), "rc": None, "error": f"{type(e).__name__}: {e}"}
+    return {"modules": len(mods), "rc": rc, "seconds": round(time.time() - t0, 1), "output": (out + err)[-1500:] if rc else ""}
+
+
 # --------------------------------------------------------------------------
 # driver
 # --------------------------------------------------------------------------
@@ -656,6 +687,12 @@ def _main(ctx: Ctx, args) -> int:
     forb = forbidden_tokens()
     for h in forb:
         ctx.proof_break(f"forbidden token: {h}")
+    lc = None
+    if ctx.tier == "thorough" and b["props_ok"]:
+        lc = leanchecker(prop)
+        if lc.get("rc") not in (0, None):
+            ctx.proof_break("leanchecker rejected a compiled module: " + lc.get("output", "")[-800:])
+        ctx.extra["leanchecker"] = {k: v for k, v in lc.items() if k != "output"}
 
     # 3. correspondence + monitors
     if b["driver_ok"]:
